@@ -16,6 +16,7 @@ type Env struct {
 	vars    map[string]Val
 	bound   map[string]Val // quantifier variables and spec-function parameters (shadow everything)
 	lookup  func(name string) (Val, bool)
+	outer   func(name string) (Val, bool) // value of a variable at the head of the enclosing loop
 	fn      *ssa.Function // for resolving type names
 	depth   int
 	results []Val
@@ -618,6 +619,15 @@ func (vc *VC) evalSpecCall(env *Env, x *SCall) Val {
 		return arg(0)
 	case "cap":
 		return Val{T: App("sl.cap", arg(0).T), Typ: intT}
+	case "outer":
+		// outer(v): the value variable v had at the head of the enclosing loop
+		// (the current iteration of that loop), for invariants of inner loops
+		if id, ok := x.Args[0].(*SIdent); ok && env.outer != nil {
+			if v, ok := env.outer(id.Name); ok {
+				return v
+			}
+		}
+		return vc.specErr("outer(%v): no enclosing loop carries that variable", x.Args[0])
 	case "min", "max":
 		a, b := arg(0), arg(1)
 		op := "<="
